@@ -77,7 +77,164 @@ func init() {
 		}
 		return L(I32(x), I32(y))
 	}
+	// widened: the library's select composed with the library's rank, both ways
+	// Rank64(ws, IndexRank64(ws), a) with (a, _) = Select32(ws, IndexSelect32(ws), i)
+	Exec["bitmap.Rank64/Select32"] = func(a []V) string {
+		ws := a[0].U64s()
+		sidx := bitmap.IndexSelect32(ws)
+		x, _ := bitmap.Select32(ws, sidx, a[1].I32())
+		r, b := bitmap.Rank64(ws, bitmap.IndexRank64(ws), x)
+		return L(I32(r), I32(b))
+	}
+	Exec["bitmap.Rank128/Select32R64"] = func(a []V) string {
+		ws := a[0].U64s()
+		sidx, ridx := bitmap.IndexSelect32R64(ws)
+		x, _ := bitmap.Select32R64(ws, sidx, ridx, a[1].I32())
+		r, b := bitmap.Rank128(ws, bitmap.IndexRank128(ws), x)
+		return L(I32(r), I32(b))
+	}
+	// Select32(ws, idx, r) with (r, _) = Rank64(ws, IndexRank64(ws, true), p)
+	Exec["bitmap.Select32/Rank64"] = func(a []V) string {
+		ws := a[0].U64s()
+		r, _ := bitmap.Rank64(ws, bitmap.IndexRank64(ws, true), a[1].I32())
+		sidx := bitmap.IndexSelect32(ws)
+		x, y := bitmap.Select32(ws, sidx, r)
+		return L(I32(x), I32(y))
+	}
+	Exec["bitmap.Select32R64/Rank128"] = func(a []V) string {
+		ws := a[0].U64s()
+		r, _ := bitmap.Rank128(ws, bitmap.IndexRank128(ws), a[1].I32())
+		sidx, ridx := bitmap.IndexSelect32R64(ws)
+		x, y := bitmap.Select32R64(ws, sidx, ridx, r)
+		return L(I32(x), I32(y))
+	}
+	// widened: select against NextOne
+	selNext := func(ws []uint64, x, y int32) string {
+		nx := int32(-1)
+		if end := int32(len(ws) * 64); x+1 < end {
+			nx = bitmap.NextOne(ws, x+1, end)
+		}
+		return L(I32(x), I32(y), I32(nx))
+	}
+	Exec["bitmap.Select32/NextOne"] = func(a []V) string {
+		ws := a[0].U64s()
+		sidx := bitmap.IndexSelect32(ws)
+		x, y := bitmap.Select32(ws, sidx, a[1].I32())
+		return selNext(ws, x, y)
+	}
+	Exec["bitmap.Select32R64/NextOne"] = func(a []V) string {
+		ws := a[0].U64s()
+		sidx, ridx := bitmap.IndexSelect32R64(ws)
+		x, y := bitmap.Select32R64(ws, sidx, ridx, a[1].I32())
+		return selNext(ws, x, y)
+	}
+	// [NextOne(ws, p, 64*len), Select32(ws, idx, Rank64(ws, ridx, p)) or -1 when the rank is the grand total]
+	Exec["bitmap.NextOne/Rank64"] = func(a []V) string {
+		ws := a[0].U64s()
+		p := a[1].I32()
+		nx := bitmap.NextOne(ws, p, int32(len(ws)*64))
+		ridx := bitmap.IndexRank64(ws, true)
+		r, _ := bitmap.Rank64(ws, ridx, p)
+		x := int32(-1)
+		if r < ridx[len(ws)] {
+			x, _ = bitmap.Select32(ws, bitmap.IndexSelect32(ws), r)
+		}
+		return L(I32(nx), I32(x))
+	}
+	// widened: select against ToArray, the whole bitmap in one case:
+	// [ToArray(ws), [Select(i) for every i < len(ToArray(ws))]]
+	Exec["bitmap.Select32/ToArray"] = func(a []V) string {
+		ws := a[0].U64s()
+		ta := bitmap.ToArray(ws)
+		sidx := bitmap.IndexSelect32(ws)
+		prs := make([]string, 0, len(ta))
+		for i := range ta {
+			x, y := bitmap.Select32(ws, sidx, int32(i))
+			prs = append(prs, L(I32(x), I32(y)))
+		}
+		return L(I32s(ta), L(prs...))
+	}
+	Exec["bitmap.Select32R64/ToArray"] = func(a []V) string {
+		ws := a[0].U64s()
+		ta := bitmap.ToArray(ws)
+		sidx, ridx := bitmap.IndexSelect32R64(ws)
+		prs := make([]string, 0, len(ta))
+		for i := range ta {
+			x, y := bitmap.Select32R64(ws, sidx, ridx, int32(i))
+			prs = append(prs, L(I32(x), I32(y)))
+		}
+		return L(I32s(ta), L(prs...))
+	}
+	// widened: select against PrevOne: [a, PrevOne(ws, 0, a)] (PrevOne not called when a == 0)
+	selPrev := func(ws []uint64, x int32) string {
+		pv := int32(-1)
+		if x >= 1 {
+			pv = bitmap.PrevOne(ws, 0, x)
+		}
+		return L(I32(x), I32(pv))
+	}
+	Exec["bitmap.PrevOne/Select32"] = func(a []V) string {
+		ws := a[0].U64s()
+		x, _ := bitmap.Select32(ws, bitmap.IndexSelect32(ws), a[1].I32())
+		return selPrev(ws, x)
+	}
+	Exec["bitmap.PrevOne/Select32R64"] = func(a []V) string {
+		ws := a[0].U64s()
+		sidx, ridx := bitmap.IndexSelect32R64(ws)
+		x, _ := bitmap.Select32R64(ws, sidx, ridx, a[1].I32())
+		return selPrev(ws, x)
+	}
 	Register("C02", genC02)
+}
+
+// c02FromKey: shape key of a "select(rank(p))" case = (bit p set or not, how far the answer is:
+// p itself / same word / next word / later word, p at a word boundary or inside, where the
+// 1-bit after the answer is).  Trivial (""): p is itself the first 1-bit of the bitmap.
+func c02FromKey(os []int, p int) string {
+	j := 0
+	for j < len(os) && os[j] < p {
+		j++
+	}
+	a := os[j]
+	if j == 0 && a == p {
+		return ""
+	}
+	dist := "hit"
+	switch d := a>>6 - p>>6; {
+	case a == p:
+	case d == 0:
+		dist = "same"
+	case d == 1:
+		dist = "next"
+	default:
+		dist = "later"
+	}
+	at := "in"
+	switch p & 63 {
+	case 0:
+		at = "w0"
+	case 63:
+		at = "w63"
+	}
+	next := "none"
+	if j+1 < len(os) {
+		switch d := os[j+1]>>6 - a>>6; {
+		case d == 0:
+			next = "same"
+		case d == 1:
+			next = "next"
+		default:
+			next = "later"
+		}
+	}
+	ic := "m"
+	switch j & 31 {
+	case 0:
+		ic = "0"
+	case 31:
+		ic = "31"
+	}
+	return fmt.Sprintf("from/%s/%s/%s/i%s", dist, at, next, ic)
 }
 
 func c02Same(a, b []uint64) bool {
@@ -181,6 +338,92 @@ func genC02(g *Gen) {
 		g.Do("bitmap.IndexSelect32R64", L(w), key)
 	}
 
+	// widened ops: rank(select(i)) and select(rank(p))
+	rs := func(ws []uint64, os []int, i int) {
+		key := c02Key(os, len(ws), i)
+		if key != "" {
+			key = "rs/" + key
+		}
+		w := U64s(ws)
+		g.Do("bitmap.Rank64/Select32", L(w, Int(i)), key)
+		g.Do("bitmap.Rank128/Select32R64", L(w, Int(i)), key)
+		g.Do("bitmap.Select32/NextOne", L(w, Int(i)), key)
+		g.Do("bitmap.Select32R64/NextOne", L(w, Int(i)), key)
+		// PrevOne from the selected bit: the previous 1-bit in the same word / an earlier word / none
+		pkey := ""
+		if i > 0 {
+			d := os[i]>>6 - os[i-1]>>6
+			pkey = fmt.Sprintf("prev/d%d/b%d", c02Cap(d, 3), (os[i]&63)>>3)
+		} else if os[0] > 0 {
+			pkey = fmt.Sprintf("prev/none/w%d", c02Cap(os[0]>>6, 3))
+		}
+		g.Do("bitmap.PrevOne/Select32", L(w, Int(i)), pkey)
+		g.Do("bitmap.PrevOne/Select32R64", L(w, Int(i)), pkey)
+	}
+	// NextOne(p) against select(rank(p)); any p inside the bitmap, also past the last 1-bit
+	nfrom := func(ws []uint64, os []int, p int) {
+		if p < 0 || p >= 64*len(ws) {
+			return
+		}
+		key := "nfrom/none"
+		if len(os) > 0 && p <= os[len(os)-1] {
+			key = c02FromKey(os, p)
+			if key != "" {
+				key = "n" + key
+			}
+		}
+		g.Do("bitmap.NextOne/Rank64", L(U64s(ws), Int(p)), key)
+	}
+	from := func(ws []uint64, os []int, p int) {
+		if p < 0 || len(os) == 0 || p > os[len(os)-1] {
+			return
+		}
+		key := c02FromKey(os, p)
+		w := U64s(ws)
+		g.Do("bitmap.Select32/Rank64", L(w, Int(p)), key)
+		g.Do("bitmap.Select32R64/Rank128", L(w, Int(p)), key)
+		nfrom(ws, os, p)
+	}
+	// a spread of start positions for one bitmap
+	fromSpread := func(ws []uint64, os []int, nrand int) {
+		cnt := len(os)
+		if cnt == 0 {
+			return
+		}
+		last := os[cnt-1]
+		from(ws, os, 0)
+		from(ws, os, last)
+		from(ws, os, last-1)
+		for q := 0; q < nrand; q++ {
+			j := g.R.Intn(cnt)
+			from(ws, os, os[j])
+			from(ws, os, os[j]+1)
+			from(ws, os, os[j]-1)
+			p := g.R.Intn(last + 1)
+			from(ws, os, p)
+			from(ws, os, p&^63)
+			from(ws, os, p|63)
+			rs(ws, os, j)
+		}
+		rs(ws, os, 0)
+		rs(ws, os, cnt-1)
+		rs(ws, os, (cnt-1)&^31)
+		nfrom(ws, os, last+1)
+		nfrom(ws, os, 64*len(ws)-1)
+		nfrom(ws, os, (last+64)&^63)
+	}
+
+	// whole-bitmap sweep against ToArray (non-trivial when there are at least 2 words and 33 1-bits)
+	sweep := func(ws []uint64) {
+		n := popcount(ws)
+		key := ""
+		if n > 32 && len(ws) > 1 {
+			key = fmt.Sprintf("sweep/cp%d/nw%d", c02Cap((n+31)/32, 8), c02Cap(len(ws), 12))
+		}
+		g.Do("bitmap.Select32/ToArray", L(U64s(ws)), key)
+		g.Do("bitmap.Select32R64/ToArray", L(U64s(ws)), key)
+	}
+
 	held := func(ws []uint64, os []int, i int, bucket string) {
 		g.Stat(bucket)
 		decoy := make([]uint64, len(ws))
@@ -222,6 +465,7 @@ func genC02(g *Gen) {
 	// (0) empty and all-zero bitmaps: index only (no valid i)
 	for n := 0; n <= 3; n++ {
 		index(make([]uint64, n))
+		sweep(make([]uint64, n))
 	}
 
 	// (1) the byte table through the API: every byte value at every byte position of a
@@ -241,7 +485,7 @@ func genC02(g *Gen) {
 	for b := 1; b < 256; b++ {
 		for _, low := range []uint64{0x01, 0x81, 0x92, 0xff} {
 			for q := 0; q < 4; q++ {
-				if !g.Thorough && (b+q+int(low))%4 != 0 {
+				if !g.Thorough && (b+q+int(low))%8 != 0 {
 					continue
 				}
 				ws := []uint64{(uint64(b)<<8 | low) << uint(16*q)}
@@ -262,6 +506,17 @@ func genC02(g *Gen) {
 		for b2 := b1; b2 < 64; b2++ {
 			w := uint64(1)<<uint(b1) | uint64(1)<<uint(b2)
 			selAll([]uint64{w}, "exh-1or2bit")
+			if b1 == b2 || (g.Thorough && (b1+b2)%3 == 0) || (b1+b2)%32 == 0 {
+				os := c02Ones([]uint64{w})
+				for i := range os {
+					rs([]uint64{w}, os, i)
+				}
+				for p := 0; p <= b2; p++ {
+					from([]uint64{w}, os, p)
+				}
+				nfrom([]uint64{w}, os, b2+1)
+				nfrom([]uint64{w}, os, 63)
+			}
 			if g.Thorough || (b1+b2)%5 == 0 {
 				ws := []uint64{^uint64(0), w, 0}
 				os := c02Ones(ws)
@@ -272,6 +527,7 @@ func genC02(g *Gen) {
 		}
 	}
 	g.Exhaust = append(g.Exhaust, "all one-word bitmaps with 1 or 2 bits x all i")
+	g.Exhaust = append(g.Exhaust, "select(rank(p)) and rank(select(i)): all one-word bitmaps with exactly 1 bit x all p up to that bit")
 
 	// (3) 1-bits straddling every 8/16/32/64 boundary: all non-empty subsets of the
 	// four positions {B-2,B-1,B,B+1} around every multiple of 8 in a 3-word bitmap
@@ -291,6 +547,21 @@ func genC02(g *Gen) {
 					continue
 				}
 				selAll(ws, "exh-straddle")
+				if fill == 0 || g.Thorough {
+					os := c02Ones(ws)
+					for p := B - 3; p <= B+1; p++ {
+						if !g.Thorough && (p+m)%2 == 0 {
+							continue
+						}
+						from(ws, os, p)
+					}
+					from(ws, os, 0)
+					for i := range os {
+						if fill == 0 {
+							rs(ws, os, i)
+						}
+					}
+				}
 			}
 		}
 	}
@@ -303,12 +574,13 @@ func genC02(g *Gen) {
 			ws[i] = ^uint64(0)
 		}
 		index(ws)
+		sweep(ws)
 		selAll(ws, "exh-full")
 	}
 	g.Exhaust = append(g.Exhaust, fmt.Sprintf("all-ones bitmaps of 1..%d words x all i", g.N(3, 6)))
 
 	// (5) random bitmaps of 1..40 words of every density incl. runs of empty words
-	nb := g.N(260, 9000)
+	nb := g.N(260, 7000)
 	for k := 0; k < nb; k++ {
 		n := g.R.Range(1, 40)
 		if g.R.Intn(3) == 0 {
@@ -407,9 +679,87 @@ func genC02(g *Gen) {
 		for q := 0; q < 6; q++ {
 			try(g.R.Intn(cnt))
 		}
+		if n <= 6 || (k%8 == 0 && cnt <= 900) {
+			sweep(ws)
+		}
+		if !g.Thorough {
+			fromSpread(ws, os, 1)
+		} else if k%4 == 0 {
+			fromSpread(ws, os, 2)
+		}
 		if k%4 == 0 {
 			held(ws, os, g.R.Intn(cnt), "held-index-random")
 			held(ws, os, cnt-1, "held-index-random")
+		}
+	}
+
+	// (6) large bitmaps: positions beyond 2^12 (and 2^15 in the thorough tier), many checkpoints,
+	// long runs of skipped words.  (Added after the self-test: a checkpoint that is wrong only for
+	// bit positions >= 4096 survived the 1..70-word generators.)
+	sizes := []int{64, 65, 96, 129, 200, 257}
+	if g.Thorough {
+		sizes = append(sizes, 300, 400, 513, 600)
+	}
+	for _, n := range sizes {
+		for variant := 0; variant < 3; variant++ {
+			ws := make([]uint64, n)
+			switch variant {
+			case 0: // uniform
+				for i := range ws {
+					ws[i] = g.R.U64()
+				}
+			case 1: // sparse with long empty runs: 1 word in 8 carries 1..3 bits
+				for i := range ws {
+					if g.R.Intn(8) == 0 {
+						for q := g.R.Range(1, 3); q > 0; q-- {
+							ws[i] |= 1 << uint(g.R.Intn(64))
+						}
+					}
+				}
+				ws[n-1-g.R.Intn(3)] |= 1 << uint(g.R.Intn(64))
+			default: // dense head, empty tail
+				for i := 0; i < n; i++ {
+					if i < n-n/4 {
+						ws[i] = g.R.U64() | g.R.U64()
+					}
+				}
+			}
+			index(ws)
+			os := c02Ones(ws)
+			cnt := len(os)
+			if cnt == 0 {
+				continue
+			}
+			bucket := fmt.Sprintf("large-v%d-nw%03d", variant, n)
+			seen := map[int]bool{}
+			try := func(i int) {
+				if i >= 0 && i < cnt && !seen[i] {
+					seen[i] = true
+					sel(ws, os, i, bucket)
+				}
+			}
+			try(0)
+			try(cnt - 1)
+			// the 1-bits around bit positions 4096 and 32768 and around the last checkpoint
+			for j, p := range os {
+				if (p >= 4096 && j > 0 && os[j-1] < 4096) || (p >= 32768 && j > 0 && os[j-1] < 32768) {
+					try(j - 1)
+					try(j)
+					try(j | 31)
+				}
+			}
+			c := (cnt - 1) &^ 31
+			try(c - 1)
+			try(c)
+			try(c + 1)
+			for q := 0; q < 4; q++ {
+				try(g.R.Intn(cnt))
+			}
+			fromSpread(ws, os, 1)
+			if variant == 1 {
+				sweep(ws)
+			}
+			held(ws, os, g.R.Intn(cnt), "held-index-large")
 		}
 	}
 }
